@@ -62,8 +62,9 @@ def work(tier, seed):
     b = bounds(tier)
     items = []
     for bl in ot.order_types(b["max_pos"], b["max_neg"]):
+        n = sum(a + c for a, c in bl)
         for kind in b["grids"]:
-            if kind == "ulp" and sum(a + c for a, c in bl) > 8:
+            if kind in ("ulp", "negated", "dyadic") and n > 7:
                 continue
             items.append({"blocks": [list(x) for x in bl], "grid": kind})
     return items
@@ -91,6 +92,9 @@ def run(item, ctx, tier, seed):
     nontriv_t = [lo <= t <= hi for t in T]
     easy_menu = list(itertools.product(b["easy"], repeat=2))
     is_int = item["grid"] == "int"
+    big = len(pos) + len(neg) > 7  # thorough tier: the many large order types get a reduced menu
+    if big:
+        easy_menu = [(0, 0), (b["easy"][-1], 1), (1, 2)]
 
     # ---- input forms: every one must give the same sorted object ----------
     forms = []
@@ -110,6 +114,8 @@ def run(item, ctx, tier, seed):
             ("float32", np.array(pos[::-1], dtype=np.float32), np.array(neg[::-1], dtype=np.float32), {})
         )
     forms.append(("is_sorted", list(pos), list(neg), {"is_sorted": True}))
+    if big:
+        forms = [forms[0], forms[-2 if item["grid"] != "irregular" else -3], forms[-1]]
 
     for cfg in ot.CFGS:
         sc, ec = cfg
